@@ -91,12 +91,61 @@ def gen_case(rng, shape: str, big: bool) -> Case:
     return Case(ops=ops, tag=f"{shape}/{kind}")
 
 
+def sweep_case(rng, kind: str) -> Case:
+    """Length sweep (seeded change round 4: a SHA-256 padding fault that shows only when the hashed stream ends 55 bytes
+    into a block). For one payload kind, signed bodies whose encoded length hits every residue mod 64 — twice, so that
+    55, 119 and 183-like lengths all occur — by tuning a variable-length field (announce endpoint / manifest uri, chunk
+    data) or, for the fixed-size kinds, by trailing bytes after the message (decode ignores them). Per length:
+    (a) `encs`: the real code signs, the monitor compares the tag with the spec HMAC (`mac-enc`);
+    (b) `decs` of body || spec tag (computed here with Python's hmac, recomputed in Lean by the monitor): must be accepted
+        (`mac-reject`); and of the body under a one-bit-wrong tag: must be rejected (`mac-accept`).
+    Keys whose length is 55 mod 64 beyond the block size (119, 183) go through the key hash and are swept too."""
+    key = rng.randbytes(32)
+    k = hexs(key)
+    ops = []
+    version = rng.choice([1, 2, 3, 4]) if kind == "ann" else rng.choice([1, 2, 3, 4])
+    base = rand_msg(rng, kind, version, size="small")
+    for i in range(128):
+        m = Msg(base.version, base.type, base.kind, list(base.f))
+        pad = b""
+        if kind == "chk":
+            m.f[1] = b""
+            m.f[1] = rng.randbytes((i - len(py_encode(m))) % 64 + (64 if i >= 64 else 0))
+        elif kind == "ann":
+            m.f[2], m.f[4], m.f[5] = b"", b"", rng.randbytes(rng.choice([0, 1, 3]))
+            n = (i - len(py_encode(m))) % 64 + (64 if i >= 64 else 0)
+            cut = rng.randint(0, n)
+            m.f[2], m.f[4] = rng.randbytes(cut), rng.randbytes(n - cut)
+        else:
+            pad = rng.randbytes((i - len(py_encode(m))) % 64 + (64 if i >= 64 else 0))
+        body = py_encode(m) + pad
+        assert len(body) % 64 == i % 64
+        if not pad:
+            ops.append(f"encs {k} {m.tokens()}")
+        good = sign(key, body)
+        ops.append(f"decs {k} {hexs(good)}")
+        bad = bytearray(good)
+        bad[-1 - rng.randrange(32)] ^= 1 << rng.randrange(8)
+        ops.append(f"decs {k} {hexs(bytes(bad))}")
+    m = rand_msg(rng, kind, 4, size="small")
+    body = py_encode(m)
+    for n in [55, 56, 63, 64, 65, 119, 120, 183, 184]:
+        key2 = rng.randbytes(n)
+        ops.append(f"encs {hexs(key2)} {m.tokens()}")
+        ops.append(f"decs {hexs(key2)} {hexs(sign(key2, body))}")
+    return Case(ops=ops, tag=f"length-sweep/{kind}")
+
+
 SHAPES = ["bitflip", "truncate", "extend", "reorder", "key", "undecodable", "structured", "reorder", "key"]
 
 
 def generate(ctx, budget):
     rng = ctx.rng
-    return [gen_case(rng, SHAPES[i % len(SHAPES)], ctx.tier == "thorough" and i % 4 == 0) for i in range(budget)]
+    cases = [sweep_case(rng, kind) for kind in KINDS]          # always, whatever the seed
+    cases += [gen_case(rng, SHAPES[i % len(SHAPES)], ctx.tier == "thorough" and i % 4 == 0) for i in range(budget - len(cases))]
+    if ctx.tier == "thorough":
+        cases += [sweep_case(rng, KINDS[i % 6]) for i in range(60)]
+    return cases
 
 
 def nontrivial(r: CaseResult) -> bool:
@@ -117,7 +166,10 @@ def spec() -> Spec:
         nontrivial=nontrivial,
         budget={"quick": 270, "thorough": 5000},
         divergence_is_violation=True,
-        rule="signed buffers body||HMAC(key, body) over all six payload kinds: every single-bit flip (all positions for buffers "
+        rule="a length sweep per payload kind (signed bodies of every encoded length mod 64, twice: 55, 56, 63, 0, 119, ... "
+             "by tuning endpoint/manifest/data or trailing bytes; keys of 55..184 bytes): the real signer's tag against the spec "
+             "HMAC, body||spec-tag must be accepted, a one-bit-wrong tag rejected; then "
+             "signed buffers body||HMAC(key, body) over all six payload kinds: every single-bit flip (all positions for buffers "
              "<= 70 B in quick, <= 200 B in thorough; the tag always densely), truncation at every length, extension/prefixing by "
              "1..64 bytes, reordering (halves, tag first, reversed, swapped bytes, foreign tag), wrong keys and keys of length "
              "0..100 (including zero-extended and shortened keys), correct tags over undecodable bodies, encs/svs (sign then verify "
